@@ -12,12 +12,50 @@ open Wire Keystream
 inductive Item where
   | app (d : Bytes)
   | ku (req : Bool)
+  /-- an ignorable record: application data of length zero -/
+  | skip
   deriving DecidableEq, Repr
 
 def appBytes : List Item → Bytes
   | [] => []
   | .app d :: is => d ++ appBytes is
   | .ku _ :: is => appBytes is
+  | .skip :: is => appBytes is
+
+/-- `retryCount` along a flight: non-empty application data resets it to 0, a KeyUpdate record resets
+it and its message counts once, an ignorable record counts once and must stay within
+`maxUselessRecords`. `okRuns r items`: starting from counter value `r` the limit is never exceeded. -/
+def okRuns : Nat → List Item → Prop
+  | _, [] => True
+  | _, .app _ :: is => okRuns 0 is
+  | _, .ku _ :: is => okRuns 1 is
+  | r, .skip :: is => r + 1 ≤ maxUselessRecords ∧ okRuns (r + 1) is
+
+/-- no ignorable records (what `Write` and KeyUpdates produce). -/
+def NoSkip : List Item → Prop
+  | [] => True
+  | .skip :: _ => False
+  | _ :: is => NoSkip is
+
+theorem okRuns_of_noSkip (items : List Item) (h : NoSkip items) : ∀ r, okRuns r items := by
+  induction items with
+  | nil => intro _; trivial
+  | cons i is ih =>
+    intro r
+    cases i with
+    | app d => exact ih h 0
+    | ku q => exact ih h 1
+    | skip => exact absurd h (by simp [NoSkip])
+
+theorem noSkip_suffix (a c : List Item) (h : NoSkip (a ++ c)) : NoSkip c := by
+  induction a with
+  | nil => exact h
+  | cons i is ih => cases i <;> simp_all [NoSkip]
+
+theorem noSkip_append (a c : List Item) (ha : NoSkip a) (hc : NoSkip c) : NoSkip (a ++ c) := by
+  induction a with
+  | nil => exact hc
+  | cons i is ih => cases i <;> simp_all [NoSkip]
 
 theorem appBytes_append (a c : List Item) : appBytes (a ++ c) = appBytes a ++ appBytes c := by
   induction a with
@@ -32,6 +70,8 @@ inductive Flight (C : Crypto) (s : Suite) : Half → Bytes → List Item → Hal
   | ku {r r' w : Half} {rec raw : Bytes} {items : List Item} {req : Bool} :
       s.vers = v13 → Genuine C s r rec tHs (keyUpdateMsg req) r' →
       Flight C s (rekey C r') raw items w → Flight C s r (rec ++ raw) (.ku req :: items) w
+  | skip {r r' w : Half} {rec raw : Bytes} {items : List Item} :
+      Genuine C s r rec tApp [] r' → Flight C s r' raw items w → Flight C s r (rec ++ raw) (.skip :: items) w
 
 theorem sync_rekey (C : Crypto) (s : Suite) (hs : s.WF) (hv : s.vers = v13) (tl ml : Nat) (hC : C.Laws tl ml) (r w : Half)
     (h : Sync s r w) : Sync s (rekey C r) (rekey C w) := by
@@ -57,6 +97,28 @@ theorem Flight.snoc_app (C : Crypto) (s : Suite) (hs : s.WF) (hC : C.Laws s.tagL
   | ku hv hg _ ih =>
     have := Flight.ku hv hg ih
     simpa [List.append_assoc] using this
+  | skip hg _ ih =>
+    have := Flight.skip hg ih
+    simpa [List.append_assoc] using this
+
+/-- appending an ignorable (empty application-data) record at the writer's end. -/
+theorem Flight.snoc_skip (C : Crypto) (s : Suite) (hs : s.WF) (hC : C.Laws s.tagLen s.macLen)
+    {r : Half} {raw : Bytes} {items : List Item} {w : Half} (hF : Flight C s r raw items w) :
+    Flight C s r (raw ++ (encrypt C s w tApp []).1) (items ++ [.skip]) (encrypt C s w tApp []).2 := by
+  induction hF with
+  | nil hsy =>
+    obtain ⟨r', hg, hsy'⟩ := genuine_encrypt C s hs hC _ _ hsy tApp (by decide) (by decide) (by decide) [] (by decide)
+    have := Flight.skip hg (Flight.nil hsy')
+    simpa using this
+  | app hg hne' hd' _ ih =>
+    have := Flight.app hg hne' hd' ih
+    simpa [List.append_assoc] using this
+  | ku hv hg _ ih =>
+    have := Flight.ku hv hg ih
+    simpa [List.append_assoc] using this
+  | skip hg _ ih =>
+    have := Flight.skip hg ih
+    simpa [List.append_assoc] using this
 
 /-- appending a KeyUpdate record and re-keying the writer. -/
 theorem Flight.snoc_ku (C : Crypto) (s : Suite) (hs : s.WF) (hC : C.Laws s.tagLen s.macLen) (hv : s.vers = v13)
@@ -74,6 +136,9 @@ theorem Flight.snoc_ku (C : Crypto) (s : Suite) (hs : s.WF) (hC : C.Laws s.tagLe
     simpa [List.append_assoc] using this
   | ku hv' hg _ ih =>
     have := Flight.ku hv' hg ih
+    simpa [List.append_assoc] using this
+  | skip hg _ ih =>
+    have := Flight.skip hg ih
     simpa [List.append_assoc] using this
 
 /-! ### the writer -/
@@ -150,18 +215,18 @@ theorem writeLoop_app (C : Crypto) (f : Nat) : ∀ (c : Conn) (data : Bytes), da
     Flight C c.p.s r raw items c.out →
     ∃ items', Flight C c.p.s r (raw ++ (writeLoop C f c tApp data).1.flatten) (items ++ items')
         (writeLoop C f c tApp data).2.out ∧
-      appBytes items' = data ∧ OutOnly c (writeLoop C f c tApp data).2 := by
+      appBytes items' = data ∧ OutOnly c (writeLoop C f c tApp data).2 ∧ NoSkip items' := by
   induction f with
   | zero =>
     intro c data hf _ _ r raw items hF
     have : data = [] := List.eq_nil_of_length_eq_zero (by omega)
     subst this
-    exact ⟨[], by simpa [writeLoop] using hF, rfl, OutOnly.refl c⟩
+    exact ⟨[], by simpa [writeLoop] using hF, rfl, OutOnly.refl c, trivial⟩
   | succ f ih =>
     intro c data hf hs hC r raw items hF
     by_cases hd : data = []
     · subst hd
-      exact ⟨[], by simpa [writeLoop] using hF, rfl, OutOnly.refl c⟩
+      exact ⟨[], by simpa [writeLoop] using hF, rfl, OutOnly.refl c, trivial⟩
     · obtain ⟨hm1, hm2, hoo, hout⟩ := maxPayload_spec c tApp hs
       simp only [writeLoop, hd, if_false]
       generalize hmp : maxPayload c tApp = mp at hm1 hm2 hoo hout
@@ -184,11 +249,11 @@ theorem writeLoop_app (C : Crypto) (f : Nat) : ∀ (c : Conn) (data : Bytes), da
         rcases Nat.le_total data.length mp.1 with h | h
         · rw [Nat.min_eq_left h]; omega
         · rw [Nat.min_eq_right h]; omega
-      obtain ⟨items', hF2, hab, hoo2⟩ := ih { mp.2 with out := e.2, bytesSent := mp.2.bytesSent + e.1.length }
+      obtain ⟨items', hF2, hab, hoo2, hns⟩ := ih { mp.2 with out := e.2, bytesSent := mp.2.bytesSent + e.1.length }
         (data.drop (min data.length mp.1)) hrest (by rw [hc2p]; exact hs)
         (by rw [hc2p]; exact hC) r (raw ++ e.1) (items ++ [.app (data.take (min data.length mp.1))])
         (by rw [hc2p]; exact hF1)
-      refine ⟨.app (data.take (min data.length mp.1)) :: items', ?_, ?_, ?_⟩
+      refine ⟨.app (data.take (min data.length mp.1)) :: items', ?_, ?_, ?_, hns⟩
       · rw [hc2p] at hF2
         simpa [List.append_assoc] using hF2
       · simp [appBytes, hab]
@@ -199,18 +264,18 @@ theorem writeLoop_app (C : Crypto) (f : Nat) : ∀ (c : Conn) (data : Bytes), da
 theorem write_flight (C : Crypto) (c : Conn) (data : Bytes) (hs : c.p.s.WF) (hC : C.Laws c.p.s.tagLen c.p.s.macLen)
     (he : c.outErr = none) (r : Half) (raw : Bytes) (items : List Item) (hF : Flight C c.p.s r raw items c.out) :
     ∃ items', Flight C c.p.s r (raw ++ (write C c data).1.flatten) (items ++ items') (write C c data).2.out ∧
-      appBytes items' = data ∧ OutOnly c (write C c data).2 := by
+      appBytes items' = data ∧ OutOnly c (write C c data).2 ∧ NoSkip items' := by
   unfold write
   rw [he]
   simp only [Option.isSome_none, Bool.false_eq_true, if_false]
   by_cases hsp : data.length > 1 ∧ splitVers c.p = true ∧ c.p.s.kind = .cbc
   · rw [if_pos hsp]
     unfold writeRecord
-    obtain ⟨i1, hF1, ha1, ho1⟩ := writeLoop_app C _ c (data.take 1) (Nat.le_refl _) hs hC r raw items hF
+    obtain ⟨i1, hF1, ha1, ho1, hn1⟩ := writeLoop_app C _ c (data.take 1) (Nat.le_refl _) hs hC r raw items hF
     generalize writeLoop C (data.take 1).length c tApp (data.take 1) = r1 at hF1 ho1
-    obtain ⟨i2, hF2, ha2, ho2⟩ := writeLoop_app C _ r1.2 (data.drop 1) (Nat.le_refl _) (by rw [ho1.p]; exact hs)
+    obtain ⟨i2, hF2, ha2, ho2, hn2⟩ := writeLoop_app C _ r1.2 (data.drop 1) (Nat.le_refl _) (by rw [ho1.p]; exact hs)
       (by rw [ho1.p]; exact hC) r _ _ (by rw [ho1.p]; exact hF1)
-    refine ⟨i1 ++ i2, ?_, ?_, OutOnly.trans ho1 ho2⟩
+    refine ⟨i1 ++ i2, ?_, ?_, OutOnly.trans ho1 ho2, noSkip_append _ _ hn1 hn2⟩
     · rw [ho1.p] at hF2
       simpa [List.append_assoc] using hF2
     · rw [appBytes_append, ha1, ha2, List.take_append_drop]
@@ -265,6 +330,19 @@ theorem afterDecrypt_app (C : Crypto) (c1 : Conn) (d : Bytes) (r' : Half) (hdl :
   by_cases hv : c1.p.s.vers = v13
   · simp [afterDecrypt, dispatch, hdne, hdpos, hnl, hh hv, hv, tApp, tAlert, tCCS, tHs]
   · simp [afterDecrypt, dispatch, hdne, hdpos, hnl, hv, tApp, tAlert, tCCS, tHs]
+
+/-- an empty application-data record is dropped through `retryReadRecord`. -/
+theorem afterDecrypt_app_empty (C : Crypto) (c1 : Conn) (r' : Half) (hh : c1.p.s.vers = v13 → c1.hand = []) :
+    afterDecrypt C c1 [] tApp r' = retryStep C { c1 with inn := r' } := by
+  by_cases hv : c1.p.s.vers = v13
+  · simp [afterDecrypt, dispatch, hh hv, hv, tApp, tAlert, tCCS, tHs]
+  · simp [afterDecrypt, dispatch, hv, tApp, tAlert, tCCS, tHs]
+
+theorem retryStep_ok (C : Crypto) (c : Conn) (h : c.retry + 1 ≤ maxUselessRecords) :
+    retryStep C c = .next { c with retry := c.retry + 1 } [] := by
+  unfold retryStep
+  simp only
+  rw [if_neg (by simp; omega)]
 
 theorem afterDecrypt_hs (C : Crypto) (c1 : Conn) (d : Bytes) (r' : Half) (hdl : d.length ≤ maxPlaintext) (hdne : d ≠ []) :
     afterDecrypt C c1 d tHs r' = .next { c1 with inn := r', retry := 0, hand := c1.hand ++ d } [] := by
